@@ -19,9 +19,12 @@ LEVEL_TEXT = ("Coq theorems over the SMTP session model for every configuration 
 LEVEL_NOTE = ("Coq kernel; extraction; the MAIL patterns (as RE2 programs), the address parser and the policy are modelled and cross-checked per case; net.ParseIP and enmime header decoding are oracles; read "
               "deadlines are modelled as scripted events (a read times out exactly where the client pauses; what bufio/textproto make of a "
               "pending error with a partial line buffered is transcribed and validated by the correspondence run), not as clocks: the single "
-              "deadline readDataBlock sets for a whole block and write deadlines are not modelled; write failures are (run_net_w: the server's writes fail "
+              "deadline readDataBlock sets for a whole block and write deadlines are not modelled; the hypothesis 'TLS not configured' of progress / bytes_session_always_ends / net_session_always_ends is gone; write failures are (run_net_w: the server's writes fail "
               "after k reply lines - write_failure_store_is_entitled, write_failure_is_cut, write_failure_replies_prefix); the TLS record layer is not modelled: "
-              "the asmtls stream runs the dialogues through a real TLS listener (SMTP_FORCETLS) and the model treats TLS as transparent; the accept loops are modelled "
+              "STARTTLS IS in the model (Proofs/SmtpTls.v, SmtpTlsWire.v): the session carries the tls flag, STARTTLS is answered 454 / 220 as the code does, after 220 the "
+              "session is in GREET again (after_starttls_greeting_is_due), TLS is never negotiated twice nor dropped (starttls_once, tls_never_dropped), EHLO offers it exactly "
+              "while it can be started, and plaintext pipelined behind an accepted STARTTLS line is never executed (injected_plaintext_is_never_executed, over run_stream_tls); "
+              "the TLS record layer and handshake are the transport's and not modelled (TLS is transparent to the lines); the asmtls stream runs the dialogues through a real TLS listener (SMTP_FORCETLS); the accept loops are modelled "
               "under C19 (LifecycleAccept), here the asmtls stream checks that peers which connect and stay silent do not keep another client from being served; "
               "panics inside third-party parsers are searched for by the garbage stream, not proved absent")
 DESIGN_REF = "DESIGN.md §4 C03"
@@ -31,6 +34,8 @@ RULE = ("(a) dialogues with 35% garbage/out-of-order lines between steps (mixed 
         "(d) the server's writes failing after k reply lines, every k for valid dialogues; (e) smtppar: sessions that overlap, the first held inside Deliver "
         "while the others run; (f) asmtls: the assembled server (config.Process, FullAssembly, Services.Start) on a TLS-from-the-first-byte SMTP listener with a "
         "run-time certificate, 1-3 silent peers connected first, the dialogue played by a real TLS client and the result read back through the REST API; "
+        "(g) smtptls: a session on a server with STARTTLS configured, the client greets, sends STARTTLS (a third of the cases with plaintext commands pipelined "
+        "behind it in the same segment), upgrades with a real TLS handshake whenever it is answered 220 and goes on under TLS (re-greeting or not, a second STARTTLS, transactions); "
         "distinct = distinct input line; non-trivial = something stored or some 5xx reply")
 TRUSTED = ["net.ParseIP verdicts and enmime header facts (From/To/Subject, parse error) are oracles supplied by the driver from the real functions",
            "an in-memory half-closeable connection (go/smtpd/bufconn.go) stands for TCP: the client writes, half-closes (or pauses / stays silent / breaks as scripted) and reads every reply"]
